@@ -21,7 +21,7 @@ func init() {
 			"signalled waiter calls delegate.Acquire again before it can block again; (O5) queue hand-off: the failed Acquire, the backlog bound check and the enqueue are one " +
 			"exclusive critical section of the mutex unblock holds, delivery to a queued waiter cannot be refused (channel capacity >= 1 or a blocking send), unblock evicts only " +
 			"once it holds a token for the waiter, and give-up paths drain the channel under the same mutex. Which waiter is next is C11; fairness, wake-ups caused by a limit " +
-			"increase (no completion runs) and goroutine leaks are not covered.",
+			"increase (no completion runs) and goroutine leaks are not covered. O5 also requires: the hand-off decides 'nobody is waiting' holding the limiter's mutex (shared suffices for that decision); an eviction function, which runs twice when a give-up coincides with the hand-off, does nothing on every path that is not idempotent (no counter step, append, send or close next to list.Remove); completions of delegate listeners inside the queue limiter happen only on the refused-delivery edge. (O6) the limiter underneath answers a retry only after asking its strategy (C01/O7).",
 	})
 }
 
